@@ -34,7 +34,7 @@ def _ncases(t):
 
 
 PLAN = {
-    'quick': dict(cases=_ncases('quick'), budget_s=120, case_timeout=300, min_cases=150),
+    'quick': dict(cases=_ncases('quick'), budget_s=180, case_timeout=300, min_cases=100),
     'thorough': dict(cases=_ncases('thorough'), budget_s=1500, case_timeout=1200, min_cases=900),
 }
 RHO = (1e-6, 1e2)
